@@ -871,3 +871,105 @@ func machineErrValues(cl *ssa.Call) []ssa.Value {
 	}
 	return []ssa.Value{cl}
 }
+
+// guardTable: which mutex protects which mutable field of the long-lived mailbox objects. The
+// instances were discovered from the tree (every access outside the allocating functions holds
+// the mutex), confirmed by reading, and are frozen here (Engler et al.: statistics only to find
+// candidates). A later access without the mutex is a data race between the gRPC goroutines, the
+// gbn callbacks and the reconnect path.
+var guardTable = [][2]string{
+	{"mailbox.NoiseGrpcConn.noise", "mailbox.NoiseGrpcConn.proxyConnMtx"},
+	{"mailbox.NoiseGrpcConn.ProxyConn", "mailbox.NoiseGrpcConn.proxyConnMtx"},
+	{"mailbox.NoiseGrpcConn.nextMsg", "mailbox.NoiseGrpcConn.nextMsgMtx"},
+	{"mailbox.ServerConn.receiveStream", "mailbox.ServerConn.receiveStreamMu"},
+	{"mailbox.ServerConn.sendStream", "mailbox.ServerConn.sendStreamMu"},
+	{"mailbox.ServerConn.status", "mailbox.ServerConn.statusMu"},
+	{"mailbox.ClientConn.status", "mailbox.ClientConn.statusMu"},
+	{"mailbox.Client.status", "mailbox.Client.statusMu"},
+}
+
+// guardExceptions: accesses that hold no mutex and are ordered by something else (one line of
+// reason each; keyed by function and field, never by line).
+var guardExceptions = map[[2]string]string{
+	{"(*mailbox.ServerConn).Close$1", "receiveStream"}: "read after gbnConn.Close() returned: that call joins the gbn goroutines (and the FIN helper) which are the only callers of the callbacks that replace the stream; with gbnConn == nil no callback ever ran",
+	{"(*mailbox.ServerConn).Close$1", "sendStream"}:    "as receiveStream: read after gbnConn.Close() has joined every goroutine that can replace the stream",
+}
+
+// ruleGuardTable (GUARD): every access to a guarded field outside the functions that allocate the
+// struct happens with its mutex must-held (exclusively for a write); the lockset is
+// interprocedural (a helper called only with the mutex held inherits it).
+func ruleGuardTable(c *Checker, rule string) {
+	w := c.w
+	var funcs []*ssa.Function
+	roots := map[*ssa.Function]bool{}
+	for _, fn := range w.Funcs {
+		if w.pkgShort(fn) != targetMbox {
+			continue
+		}
+		funcs = append(funcs, fn)
+		if sites, closed := w.CallersOf(fn); !closed || len(sites) == 0 {
+			roots[fn] = true
+		}
+	}
+	li := w.computeLocks(funcs, roots)
+	n := 0
+	for _, g := range guardTable {
+		f, mu := w.Field(g[0]), w.Field(g[1])
+		if f == nil || mu == nil {
+			c.anchorFail(g[0] + " / " + g[1])
+			continue
+		}
+		owner := namedOfField(w, g[0])
+		for _, fa := range w.FieldAddrs(f) {
+			fn := fa.Parent()
+			if fa.Referrers() == nil || allocatesNamed(fn, owner) {
+				continue
+			}
+			for _, r := range *fa.Referrers() {
+				_, isStore := r.(*ssa.Store)
+				if _, isLoad := r.(*ssa.UnOp); !isLoad && !isStore {
+					continue
+				}
+				mode, have := li.At(r)[mu]
+				okk := have && (!isStore || mode == lockExcl)
+				n++
+				kind := map[bool]string{true: "write", false: "read"}[isStore]
+				if why, ex := guardExceptions[[2]string{fnName(fn), f.Name()}]; ex && !isStore {
+					// the exception is only as good as its reason: the read must come after the gbn Close call
+					after := false
+					for _, ci := range findCalls(fn, func(ci ssa.CallInstruction) bool {
+						return staticCalleeIs(ci.Common(), "gbn", "GoBackNConn", "Close")
+					}) {
+						if !pathExists(r, ci, nil) {
+							after = true
+						}
+					}
+					c.decide(after, rule, fmt.Sprintf("%s|%s in %s ordered by the join in gbn Close", f.Name(), kind, fnName(fn)), instrPos(r), why,
+						"the unguarded read of "+f.Name()+" in "+fnName(fn)+" is no longer ordered after gbnConn.Close(): it races with the callback that re-creates the stream")
+					continue
+				}
+				c.decide(okk, rule, fmt.Sprintf("%s|%s under %s in %s", f.Name(), kind, mu.Name(), fnName(fn)), instrPos(r),
+					"guarded by "+mu.Name(),
+					fmt.Sprintf("%s is accessed (%s) in %s without %s held%s: the field is shared between the gRPC reader/writer goroutines, the gbn callbacks and the reconnect path - a data race", g[0], kind, fnName(fn), mu.Name(), map[bool]string{true: " exclusively", false: ""}[isStore]))
+			}
+		}
+	}
+	if n < 20 {
+		c.fail(rule, "guard table|accesses examined", 0, fmt.Sprintf("only %d guarded accesses found", n))
+	}
+}
+
+func namedOfField(w *World, q string) *types.Named {
+	i := strings.LastIndex(q, ".")
+	return w.Named(q[:i])
+}
+
+func allocatesNamed(fn *ssa.Function, n *types.Named) bool {
+	found := false
+	allInstrs(fn, func(in ssa.Instruction) {
+		if al, ok := in.(*ssa.Alloc); ok && namedOf(deref(al.Type())) == n {
+			found = true
+		}
+	})
+	return found
+}
